@@ -173,7 +173,11 @@ def events_of(blob, start_id, rng_seed):
                     cw = w.clone()
                 else:
                     roots = [V.task(x) for x in a["seq"]]
-                    cw = w.subtree(roots[0] if len(roots) == 1 and eid % 2 else roots)
+                    # the selection in every form the API accepts: list, bare task, tuple, one-shot iterables
+                    form = eid % 5
+                    arg = (roots if form == 0 else roots[0] if len(roots) == 1 and form == 1 else tuple(roots) if form == 2
+                           else (r for r in roots) if form == 3 else iter(roots))
+                    cw = w.subtree(arg)
                 out = "ok"
             except RecursionError:
                 out, cw = "RecursionError", None
